@@ -488,7 +488,11 @@ func ToQuantity(ctx *expr.Context, input system.Collection, args ...expr.Express
 			return system.Collection{result}, nil
 		}
 		res := strings.SplitN(string(value), " ", 2)
-		unit := strings.Trim(res[1], "'")
+		// A bare number ("5") has no unit part: it is a Quantity with the default unit.
+		unit := DefaultQuantityUnit
+		if len(res) == 2 {
+			unit = strings.Trim(res[1], "'")
+		}
 		result := system.MustParseQuantity(res[0], unit)
 		return system.Collection{result}, nil
 	case system.Boolean:
